@@ -361,7 +361,10 @@ class Documentable:
         isVisible = self.privacyClass is not PrivacyClass.HIDDEN
         # If a module/package/class is hidden, all it's members are hidden as well.
         if isVisible and self.parent:
-            isVisible = self.parent.isVisible
+            # An older definition that has been superseded by a later one (renamed to 'name 0' by
+            # System.handleDuplicate) is not in the contents of its parent anymore: no page or anchor is
+            # generated for it, so it must not be listed or linked either.
+            isVisible = self.parent.contents.get(self.name) is self and self.parent.isVisible
         return isVisible
 
     @property
